@@ -5,7 +5,7 @@ from engine.rulekit import mir as M
 from engine.rulekit import og
 from engine.rulekit import scans
 
-MAKE = "model::doc::make_abbreviated_namespace"
+from rules import anchors as A
 
 
 def run(ck, F):
@@ -21,9 +21,15 @@ def run(ck, F):
     ck.rule("R2", "uniqueness scope: `existing` is the registry holding every Namespace of the document (`namespaces`)")
     ck.rule("R3", "single allocation: Namespace{..} is built only after `find by URI` in the registry failed; rust_mod_name derives from the same abbreviation")
     ck.rule("R4", "merge reconciliation: merging registries matches incoming entries by URI and re-checks abbreviations")
+    makers = A.abbreviation_makers(F)
+    if len(makers) != 1:
+        ck.undecided("R1", "anchor", "-", f"expected one function producing Namespace.abbreviation at the construction sites, found {makers}")
+        return
+    MAKE = makers[0]
+    mshort = MAKE.rsplit("::", 1)[-1]
     fb = F.lib.body(MAKE)
     if fb is None or not fb.get("mir"):
-        ck.undecided("R1", "anchor", "-", "make_abbreviated_namespace not found")
+        ck.undecided("R1", "anchor", "-", "the abbreviation function has no body")
         return
     # helper functions and directly called closures of the abbreviation function are part of it
     B = I.inlined_body(F.lib, MAKE)
@@ -105,10 +111,10 @@ def run(ck, F):
                 if free_arm is not None and B.dominates(free_arm, rb):
                     ok = True
         if ok:
-            ck.ok("R1", "return-tested-unused", s.get("sp", fb["span"]), "the returned abbreviation was tested not to occur in `existing`", fn="make_abbreviated_namespace")
+            ck.ok("R1", "return-tested-unused", s.get("sp", fb["span"]), "the returned abbreviation was tested not to occur in `existing`", fn="")
         else:
             ck.violation("R1", "return-tested-unused", s.get("sp", fb["span"]),
-                         f"make_abbreviated_namespace can return an abbreviation without having tested it against the existing ones ({why})", fn="make_abbreviated_namespace")
+                         f"{mshort} can return an abbreviation without having tested it against the existing ones ({why})", fn="")
     # ---- R2 / R3
     CE = og.CallExpander(F)
     sums = [s for s in og.field_summaries(F, "model::Namespace") if "Clone" not in s[0] and "tests" not in s[0]]
@@ -129,7 +135,7 @@ def run(ck, F):
             if og.nf_str(ab[2][0]) != og.nf_str(uri):
                 ck.violation("R3", "abbreviation-of-other-uri", site, f"{short}: abbreviation derived from {og.nf_str(ab[2][0])} but namespace is {og.nf_str(uri)}", fn=fn)
         else:
-            ck.violation("R2", "abbreviation-source", site, f"{short}: abbreviation = {og.nf_str(ab)[:80]} does not come from make_abbreviated_namespace", fn=fn)
+            ck.violation("R2", "abbreviation-source", site, f"{short}: abbreviation = {og.nf_str(ab)[:80]} does not come from the abbreviation function ({mshort})", fn=fn)
         md_e = CE.expand(md) if md else None
         only_ab = False
         if md_e is not None and ab is not None:
@@ -172,9 +178,9 @@ def run(ck, F):
         return
     nb = Hh.norm_body(b)
     text = " ".join(Hh.describe(x) for x in Hh.exprs(nb["value"]) if x.get("k") in ("MethodCall", "Call"))
-    helper = F.lib.body("model::doc::extend_no_duplicates")
     by_uri = False
-    for hb in (b, helper):
+    # the merge itself and the local functions it delegates to
+    for hb in [b] + [F.lib.body(c) for c in A.local_callees(F, "model::doc::RustDocument::extend")]:
         if hb is None:
             continue
         hnb = Hh.norm_body(hb)
@@ -185,7 +191,7 @@ def run(ck, F):
         ck.ok("R4", "merge-by-uri", b["span"], "registries are merged by URI")
     else:
         ck.violation("R4", "merge-by-uri", b["span"],
-                     "RustDocument::extend merges the namespace registries by whole-value equality (extend_no_duplicates): the same URI "
+                     "RustDocument::extend merges the namespace registries by whole-value equality: the same URI "
                      "abbreviated differently in two files yields two prefixes/modules, and two URIs abbreviated alike in two files share one")
 
 
